@@ -146,20 +146,6 @@ def check(ctx):
     check_fill_and_buffer(ctx)
     check_assert_consistency(ctx)
     check_pairs(ctx)
-    # append / extend insert at the cursor (C11-6)
-    fr = ctx.repo.cls('Fragments')
-    for name in ('append', 'extend'):
-        fi = fr.methods.get(name)
-        calls = [n for n in ast.walk(fi.node) if isinstance(n, ast.Call) and canon(n.func) == 'self.insert'] if fi is not None else []
-        if len(calls) == 1 and calls[0].args and canon(calls[0].args[0]) == 'self.current_offset':
-            ctx.holds('C02-in-order-concatenation', fi, 'Fragments.%s -> insert(self.current_offset, ...)' % name, 'at the cursor', fi.node.lineno, clause='2')
-        else:
-            ctx.violation('C02-in-order-concatenation', fi or (fr.file, 'Fragments.' + name), 'Fragments.%s' % name, 'does not insert at the cursor', fr.node.lineno, clause='2')
-    ctx.trust(*ASSUMPTIONS)
-
-
-def thorough(ctx):
-    """thorough tier: the declaration constructs used anywhere in the repository (examples, tests,
-    docs) map to analysed strategies / rules"""
-    from ..inventory import inventory
-    inventory(ctx)
+    # append / extend insert at the cursor (C11-6): same rule as C11, one level of delegation followed
+    from .c11 import check as c11_check
+    c11_check(ctx, parts=('append',))
